@@ -289,9 +289,9 @@ def run(ctx):
                         if not is_var(oc) and well_formed(snap(oc)) and not oc.errors():
                             a = cand; break
                     if a is None:
-                        a, o, t = gen_valid(rng, ctx.quick, share=False)
+                        a, o, t = gen_valid(rng, ctx.quick, share=False, empty_p=0.04)
                 else:
-                    a, o, t = gen_valid(rng, ctx.quick, share=False)
+                    a, o, t = gen_valid(rng, ctx.quick, share=False, empty_p=0.04)
                 objs.append(a)
         live = [build(a) for a in objs]
         snaps = [snap(o) for o in live]
